@@ -141,8 +141,9 @@ def run(ctx, only=None):
                 ctx.n_dis += 1
             else:
                 missing = [k for k, v in cfg.items() if v is False]
-                broken.append("hypothesis of resume_only_by_current_wait/stale_inert/deadline_scoped/sleep_not_early fails for the "
-                              "current source: sites without the generation / status check: %s" % ", ".join(missing))
+                broken.append("hypothesis `cfg.allChecked` of resume_only_by_current_wait / stale_inert / deadline_scoped / sleep_not_early / "
+                              "immediate_select_give_registers_nothing fails for the current source: sites without the generation / "
+                              "status / ordering check: %s" % ", ".join(missing))
                 ctx.broken.append(broken[-1])
             ctx.obl_names.append("tie: Gen.Wait.cfg.allChecked = true (sites extracted from the current ev.c / os.c)")
         if not quick:
@@ -175,7 +176,8 @@ def run(ctx, only=None):
     exe = ctx.driver() if (THEOREMS and HAVE_DRIVER) else None
     if exe:
         msc = [s for s in allsc if s.model_ok()]
-        lines = []
+        order = gen_wait.ORDER if gen_wait is not None else []
+        lines = ["cfg " + " ".join("1" if (cfg is None or cfg.get(k, True)) else "0" for k in order)]
         for s in msc:
             lines += s.model_lines()
         mout = ctx.model(lines, exe=exe)
